@@ -58,8 +58,8 @@ M = {
     'container-membership-test': ([D85], sub(D85, "(not len({pith_curr_var_name}) or {hint_child_placeholder})",
         "(not len({pith_curr_var_name}) or (None not in {pith_curr_var_name} and {hint_child_placeholder}))"),
         {'C09': 'C09.R1'}, 'a linear membership test'),
-    'reiterable-consumes-iterator': ([D85], sub(D85, "'''next(iter({pith_curr_var_name}))''')\n\n\nCODE_PEP484585_QUASIITERABLE",
-        "'''next({pith_curr_var_name})''')\n\n\nCODE_PEP484585_QUASIITERABLE"),
+    'reiterable-consumes-iterator': ([D85], sub(D85, "CODE_PEP484585_REITERABLE_PITH_CHILD_EXPR = (\n    '''next(iter({pith_curr_var_name}))''')",
+        "CODE_PEP484585_REITERABLE_PITH_CHILD_EXPR = (\n    '''next({pith_curr_var_name})''')"),
         {'C10': 'C10.R1'}, 'next() applied to the object itself'),
     'iterator-filed-as-reiterable': ([SETS], sub(SETS, "    HintSignValuesView,\n\n", "    HintSignValuesView,\n    HintSignIterator,\n\n", nth=0),
         {'C10': 'C10.R2'}, 'Iterator[int] items are consumed by the check'),
